@@ -42,7 +42,7 @@ case "$variant" in
   kavx2)         CF="$CF -DWITHOUT_BUILTIN_CPU_SUPPORTS"; CM+=(-DWITH_SHA3_IMPL=avx2) ;;
   kplain32)      CF="$CF -DWITHOUT_BUILTIN_CPU_SUPPORTS"; CM+=(-DWITH_SHA3_IMPL=plain32) ;;
   kplain32u64)   CM+=(-DWITH_SHA3_IMPL=plain32 -DWITH_SIMD_OPT=OFF) ;;
-  tsan)          CF="$CF -fsanitize=thread -fno-omit-frame-pointer" ;;
+  tsan)          CF="-fsanitize=thread -fno-omit-frame-pointer" ;;   # the shipped configuration: no hooks, compiler builtin CPU detection
   cfg-*)         CF="$CF ${VERIF_CFLAGS:-$SAN_ASAN}"; CM+=("$@") ;;
   *) echo "unknown variant $variant" >&2; exit 2 ;;
 esac
